@@ -20,6 +20,7 @@ from tielib import run_proc
 import imgpost_cases
 import img_cases
 import img_tie as IMG
+import imgpost_oracle as ORACLE
 
 
 def compare_lines(h_img, drv, lines, timeout=600):
@@ -64,8 +65,9 @@ def run_all(h_img, drv, cases, workers=14, chunk=120):
 def evaluate(ctx, res, h_img, drv_img):
     st = dict(cases=len(res), exact_equal=0, built=0, add_failed=0, post_failed=0, inodes=0,
               hardlink_adds=0, representable=0, input_ok=0, theorem_instances=0, reorder_moved=0,
+              oracle_checked=0, oracle_ok=0,
               features={}, shapes={})
-    bad, thm_bad = [], []
+    bad, thm_bad, orc_bad = [], [], []
     for r in res:
         lab = r["label"].split("-")[0].split(":")[0] if r["label"].startswith("img:") else r["label"]
         st["shapes"][lab] = st["shapes"].get(lab, 0) + 1
@@ -75,6 +77,16 @@ def evaluate(ctx, res, h_img, drv_img):
             continue
         for f in r["feats"]:
             st["features"][f] = st["features"].get(f, 0) + 1
+        # search oracle: the implementation's tree against a plain reading of the add list (independent of the model)
+        try:
+            why = ORACLE.check(r["line"], r["impl"])
+        except Exception as e:     # noqa: BLE001 - a malformed dump is itself a finding
+            why = "dump not parseable: %r" % (e,)
+        st["oracle_checked"] += 1
+        if why is None:
+            st["oracle_ok"] += 1
+        else:
+            orc_bad.append((r, why))
         if r["impl"] == r["model"]:
             st["exact_equal"] += 1
         else:
@@ -98,15 +110,23 @@ def evaluate(ctx, res, h_img, drv_img):
                     thm_bad.append(r)
             st["reorder_moved"] += any(f.startswith("m") and f != "m0" for f in fl)
         st["hardlink_adds"] += sum(1 for t in r["line"].split(" ") if t == "h")
+    orc_bad.sort(key=lambda x: len(x[0]["line"]))
+    for r, why in orc_bad[:2]:
+        cls = why.split(":")[0].split(" ")[0]
+        ctx.violation("imgpost-oracle:" + (cls if cls.isalpha() else "structure"),
+                      "the tree lib/fstree hands to the serializer is not the tree the add operations describe (%d of %d lists; %s case [%s]): %s"
+                      % (len(orc_bad), len(res), r["label"], ",".join(r["feats"]), why[:400]),
+                      dict(kind="imgpost-lines", lines=[r["line"]], impl=r["impl"][:3000], why=why))
     for r in thm_bad[:1]:
         ctx.violation("imgpost:theorem-instance",
                       "extracted model: input_okb && attached_okb but the post-processed tree is not representable "
                       "(theorem post_tree_representable evaluated on a %s case) - extraction / driver out of step with the proofs" % r["label"],
                       dict(kind="imgpost-lines", lines=[r["line"]], model=r["model"][:2000], flags=r["flags"]), no_input=True)
     if bad:
+        bad.sort(key=lambda r: len(r["line"]))     # smallest disagreeing case first
         # search oracle on the implementation around the disagreeing cases
         concrete = None
-        for r in bad[:3]:
+        for r in ([] if orc_bad else bad[:3]):
             if r["impl"].startswith("img -"):
                 continue
             o = IMG.one_case(h_img, drv_img, "imgpost-" + r["label"], r["line"], IMG.RD_BUDGET["thorough"])
@@ -121,15 +141,15 @@ def evaluate(ctx, res, h_img, drv_img):
                 break
         r0 = bad[0]
         what = ("correspondence lib/fstree (fstree_add_generic + fstree_post_process) = C11 model + ImgPost.to_img broken on %d of %d "
-                "add-operation lists; first: %s case [%s]: impl=%s model=%s"
-                % (len(bad), len(res), r0["label"], ",".join(r0["feats"]), first_diff(r0["impl"], r0["model"]), ""))
+                "add-operation lists; smallest: %s case [%s]: %s"
+                % (len(bad), len(res), r0["label"], ",".join(r0["feats"]), first_diff(r0["impl"], r0["model"])))
         if concrete:
             r, why = concrete
             ctx.violation("imgpost-property:" + ("readback" if "read back" in why else "unrepresentable"),
                           "%s; %s case [%s]" % (why, r["label"], ",".join(r["feats"])),
                           dict(kind="imgpost-lines", lines=[r["line"]], impl=r["impl"][:3000], model=r["model"][:3000]))
         ctx.violation("tie:fstree-post",
-                      what + (" (concrete property failure reported separately)" if concrete else
+                      what + (" (concrete property failure reported separately)" if (concrete or orc_bad) else
                               " (serializing the C tree and reading it back shows no property failure)"),
                       dict(kind="imgpost-lines", lines=[r0["line"]], impl=r0["impl"][:4000], model=r0["model"][:4000],
                            correspondence="props/C01 h_img.c dump of fs->inodes vs extracted C11.fs_add/post_process + ImgPost.Bridge.to_img (exact)"),
